@@ -343,34 +343,24 @@ theorem backRes_spec (np : NetProblem K) (hdim : (dimsN np).sum = np.m) (Us : Li
 
 /-! ### the dense design matrix -/
 
+/-- `A(row, col) += a` of `project_equations()` IS the dense row of the specification (both sum repeated columns);
+    the two hypotheses are no longer needed and kept for the callers -/
 theorem rowSum_eq_rowDense (n : Nat) (l : List (Nat × K)) (hnd : (l.map (·.1)).Nodup) (h1 : ∀ cv ∈ l, 1 ≤ cv.1) :
     l.foldl (fun (acc : Array K) (cv : Nat × K) => acc.setIfInBounds (cv.1 - 1) (acc.getD (cv.1 - 1) 0 + cv.2))
-      (Array.replicate n 0) = rowDense n l := by
-  unfold rowDense
-  have key : ∀ (l : List (Nat × K)), (l.map (·.1)).Nodup → (∀ cv ∈ l, 1 ≤ cv.1) →
-      ∀ acc : Array K, (∀ cv ∈ l, acc.getD (cv.1 - 1) 0 = 0) →
-      l.foldl (fun (acc : Array K) (cv : Nat × K) => acc.setIfInBounds (cv.1 - 1) (acc.getD (cv.1 - 1) 0 + cv.2)) acc
-        = l.foldl (fun (acc : Array K) (cv : Nat × K) => acc.setIfInBounds (cv.1 - 1) cv.2) acc := by
-    intro l
-    induction l with
-    | nil => intro _ _ acc _; rfl
-    | cons cv l ih =>
-      intro hnd h1 acc hz
-      rw [List.foldl_cons, List.foldl_cons, hz cv (List.mem_cons_self), zero_add]
-      rw [List.map_cons, List.nodup_cons] at hnd
-      refine ih hnd.2 (fun c hc => h1 c (List.mem_cons_of_mem _ hc)) _ ?_
-      intro c hc
-      rw [getD_setIfInBounds']
-      have hne : cv.1 ≠ c.1 := fun e => hnd.1 (e ▸ List.mem_map_of_mem (f := (·.1)) hc)
-      have := h1 c (List.mem_cons_of_mem _ hc)
-      have := h1 cv (List.mem_cons_self)
-      rw [if_neg (by omega)]
-      exact hz c (List.mem_cons_of_mem _ hc)
-  refine key l hnd h1 _ ?_
-  intro cv _
-  by_cases h : cv.1 - 1 < n
-  · simp [Array.getD, h]
-  · simp [Array.getD, h]
+      (Array.replicate n 0) = rowDense n l := rfl
+
+/-- **no hypothesis on the rows**: the matrix `project_equations` accumulates is the design matrix of the specification -/
+theorem denseA_eq' (np : NetProblem K) :
+    toMatrix (toProblem np).m (toProblem np).n (denseA np) = (toProblem np).A := by
+  funext i j
+  show Dn.mget (denseA np) i.val j.val = Dn.mget (toProblem np).dense i.val j.val
+  have hi : i.val < np.m := i.isLt
+  have hj : j.val < np.n := j.isLt
+  unfold denseA
+  rw [mget_mmk, if_pos ⟨hi, hj⟩, mget_dense]
+  unfold rowSum
+  rw [← Array.foldl_toList]
+  rfl
 
 /-- with distinct in-range column indices in every row (`RowsOK`) the matrix `project_equations`
     accumulates (`+=`) is the design matrix of the specification -/
